@@ -1,6 +1,7 @@
 import DigModel.Proofs.Retry
 import DigModel.Proofs.History
 import DigModel.Proofs.Shape
+import DigModel.Proofs.Stable
 set_option linter.unusedSimpArgs false
 /-
   C02 — Singletons: a successful constructor or decorator never runs twice.
@@ -25,6 +26,14 @@ set_option linter.unusedSimpArgs false
     through the undo of rejected Provides (Rollback), the parse frame (Parse) and the flag discipline of the
     resolver (Flags).  "Identical instance" is token equality: with one successful execution per node
     there is one token per result slot.
+  * `C02_identical_instance` (whole histories, full strength, non-DryRun): once a single value is cached under
+    key `k` in scope `S`, **every continuation of the history** — any further Scope / Provide / Decorate / Invoke,
+    accepted or not, failing or not — leaves exactly that value cached there: no later execution replaces it, so
+    every consumer that resolves `k` through that scope's cache receives the identical instance.  Proof: the
+    only writer of `values[S][k]` is a successful execution of a constructor of `S` that declares `k` (`Wr`,
+    through the resolver by `engine_pres2`); that constructor is unique (`RegInv`: duplicates are rejected), it is
+    marked built when the value is written (`Just`), and a built constructor has no further successful
+    execution (`Flags`).
 -/
 namespace Dig.C02
 
@@ -112,7 +121,18 @@ theorem C02_no_nesting (ctx : Ctx) (fn : Fn) (st : St) (s : Nat) (info : Bool) (
       · rw [e] at h; simp at h
       · rw [List.getElem?_eq_none (by simpa using e)] at h; cases h
 
+/-- the state after the first `ops1` operations, and the state after `ops2` more -/
+theorem C02_identical_instance (ctx : Ctx) (hnd : ctx.cfg.dry = false) (fns : List Fn) (ops1 ops2 : List Op)
+    (acc : List OpRes) (S : Nat) (k : Key) (v : Val)
+    (h : aget ((runOps ctx fns ops1 0 {} []).1.scope S).values k = some v) :
+    aget ((runOps ctx fns ops2 ops1.length (runOps ctx fns ops1 0 {} []).1 acc).1.scope S).values k = some v :=
+  stable_runOps ctx hnd fns ops2 ops1.length _ acc
+    (Just.runOps ctx fns ops1 0 {} [] (Just.init ctx.env))
+    (RegInv.runOps ctx fns ops1 0 {} [] RegInv.init)
+    (HInv.runOps ctx fns ops1 0 {} [] HInv.init) S k v h
+
 #print axioms C02_once
+#print axioms C02_identical_instance
 #print axioms C02_once_history
 #print axioms C02_step_invariant
 #print axioms C02_built_stays_built
